@@ -77,7 +77,7 @@ Definition consistent (fs : list fd) : bool := sumN (map cc_count fs) <=? 1.
 Inductive cstate :=
 | TooSmall | TooLarge | FixedSz | VarString (n : N) | VarGroup (n : N)
 | MultipleVar | NestedVar | Mismatched
-| CDivZero        (* hazard: `bytes_remaining % block_size` with block_size == 0 *)
+| CDivZero        (* hazard: `bytes_remaining % block_size` with block_size == 0; unreachable since fixes/02 *)
 | CBug.           (* unreachable default branches of the model *)
 
 Definition is_var_string (f : fd) : bool :=
@@ -108,8 +108,9 @@ Definition calc (data_size : N) (fs : list fd) : cstate :=
       let g := FGroup mn mx gfs in
       if negb (fixed_block g) then NestedVar else
       let bsz := block_size g in
+      (* blocks without data (fixes/02): only "nothing left" is acceptable, as zero blocks *)
+      if bsz =? 0 then (if 0 <? rem then TooLarge else if 0 <? mn then TooSmall else VarGroup 0) else
       if limited_size g && (u32 (bsz * u32z mx) <? rem) then TooLarge else
-      if bsz =? 0 then CDivZero else
       if negb (rem mod bsz =? 0) then Mismatched else
       let rc := rem / bsz in
       if rc <? mn then TooSmall else
@@ -408,7 +409,8 @@ Definition gcalc (tc : N) (fs : list fd) : gstate :=
       if g_cnt a =? 0 then (if g_req a =? tc then GNoVar else GExtra) else
       let rem := tc - g_req a in
       if negb (g_mx a =? -1)%Z && (u32 (u32z (g_mx a) * g_tok a) <? rem) then GExtra else
-      if g_tok a =? 0 then GDivZero else
+      (* a group without tokens per block (fixes/02) *)
+      if g_tok a =? 0 then (if 0 <? rem then GExtra else GSingleVar 0) else
       if negb (rem mod g_tok a =? 0) then GMismatched else
       GSingleVar (rem / g_tok a)
     end
